@@ -164,9 +164,14 @@ def klass(items):
 # implementation side
 
 def observe_op(op):
-    """the property's observables of a SymmetryElement"""
-    m = [[op.matrix[i, j] for j in range(3)] for i in range(3)]
-    t = [op.trans[i] for i in range(3)]
+    """the property's observables of a SymmetryElement (an entry that cannot be read is None)"""
+    def get(f):
+        try:
+            return f()
+        except Exception:  # noqa
+            return None
+    m = [[get(lambda: op.matrix[i, j]) for j in range(3)] for i in range(3)]
+    t = [get(lambda: op.trans[i]) for i in range(3)]
     return m, t
 
 
@@ -193,7 +198,7 @@ def read_symm_file(lines):
 
 
 def row_matches(m_row, t, want_m, want_t):
-    if t is None or isinstance(t, bool):
+    if t is None or isinstance(t, bool) or any(x is None for x in m_row):
         return False
     try:
         ok_m = all(float(a) == float(b) for a, b in zip(m_row, want_m)) and len(m_row) == 3
